@@ -6,7 +6,7 @@ C10 driver (store level).  Lines:
   put k ts v | del k ts | sdel k ts | repl k ts v        one committed transaction each
   getat k ts
   hist lo hi tombs ra rb limit fwd|bwd                     key range [lo, hi), options (`-` = absent)
-  flush | compact | reopen                                  placements: nothing changes
+  flush | crashflush <point> | compact | reopen             placements and crash images: nothing changes
 Model column: the forward history loop / get_at of the code run on the version lists; backward =
 the reverse of forward.  Spec column: the property (retained versions, option filters).
 -/
@@ -59,14 +59,16 @@ def c10Step (st : C10State) (ws : List String) : C10State × String × String :=
       let range := match ra, rb with | some a, some b => some (a, b) | _, _ => none
       let o : HOpts := { tombs := tombs == "1", range := range, limit := limit }
       let ks := st.keys.filter (fun kv => lo ≤ kv.1 && kv.1 < hi)
-      let m := histFwd o st.seq ks
-      let sp := specHistory o st.seq ks
-      let m := if dir == "bwd" then m.reverse else m
-      let sp := if dir == "bwd" then sp.reverse else sp
-      let tag := if m == sp then "" else "\thistory-ts-range-skips-barrier"
+      -- backward: the literal model of `collect_one_user_key_backward`; its specification is the unlimited
+      -- forward listing read from the other end, then cut at the limit
+      let m := if dir == "bwd" then histBwd o st.seq ks else histFwd o st.seq ks
+      let sp := if dir == "bwd" then applyLimit o (specHistory { o with limit := none } st.seq ks).reverse
+                else specHistory o st.seq ks
+      let tag := if m == sp then "" else "\tmodel-departs-from-spec"
       (st, showHL m, showHL sp ++ tag)
     | _, _, _, _, _ => (st, "bad-op", "bad-op")
   | ["flush"] => (st, "ok", "ok")
+  | ["crashflush", _] => (st, "ok", "ok")   -- the crash image at any boundary of a flush holds the same versions
   | ["compact"] => (st, "ok", "ok")
   | ["reopen"] => (st, "ok", "ok")
   | _ => (st, "bad-op", "bad-op")
